@@ -913,6 +913,81 @@ func ldr16IndexSearch(c *Ctx) {
 			allPairs = p.InstrPos(in)
 		}
 	}
+	// Second clause (the structural form of a78ed1b): per (node, variable) pair the registry is not asked by snapshot
+	// text. A lookup in a string-keyed registry hashes the whole key, which is as long as the nesting is deep, so one
+	// lookup per pair is the cubic build again (the first version of the repair did exactly that: 1000 nested selectors
+	// 1.3 s instead of 0.7 s, with the gap growing by the third power). Accepted: a lookup that is reached only after the
+	// pointer of the variable was not found in an index map (the nodes hold registered instances, so that never happens).
+	perPair := ""
+	var textLookups func(f *ssa.Function, depth int) []ssa.Instruction
+	textLookups = func(f *ssa.Function, depth int) []ssa.Instruction {
+		var out []ssa.Instruction
+		if f == nil || f.Blocks == nil {
+			return nil
+		}
+		for _, b := range f.Blocks {
+			for _, in := range b.Instrs {
+				lk, ok := in.(*ssa.Lookup)
+				if !ok {
+					continue
+				}
+				fl, _ := fieldLoad(lk.X)
+				if fl == nil || !strings.HasSuffix(fl.Name(), "SnapshotMap") {
+					continue
+				}
+				// reached only on a miss of a pointer-keyed lookup of the same function
+				guarded := edgesDominate(f, in, func(bb *ssa.BasicBlock, si int) bool {
+					iff, ok := bb.Instrs[len(bb.Instrs)-1].(*ssa.If)
+					if !ok {
+						return false
+					}
+					kind, s, ok := condOn(iff.Cond, func(x ssa.Value) bool {
+						e, ok := x.(*ssa.Extract)
+						if !ok || e.Index != 1 {
+							return false
+						}
+						pl, ok := e.Tuple.(*ssa.Lookup)
+						if !ok {
+							return false
+						}
+						_, isPtr := pl.Index.Type().Underlying().(*types.Pointer)
+						return isPtr
+					})
+					return ok && kind == "bool" && si == 1-s
+				})
+				if !guarded {
+					out = append(out, in)
+				}
+			}
+		}
+		return out
+	}
+	nested := func(in ssa.Instruction) bool {
+		depth := 0
+		for _, l := range loops {
+			if l.Blocks[in.Block()] {
+				depth++
+			}
+		}
+		return depth >= 2
+	}
+	for _, in := range textLookups(fn, 0) {
+		if nested(in) {
+			perPair = p.InstrPos(in)
+		}
+	}
+	for _, ci := range callsIn(fn) {
+		in := ci.(ssa.Instruction)
+		if !nested(in) {
+			continue
+		}
+		if callee, _ := calleeOf(ci); callee != nil && callee.Pkg == fn.Pkg && receiver(callee) != nil && len(ci.Common().Args) > 0 && ci.Common().Args[0] == ssa.Value(receiver(fn)) {
+			if ls := textLookups(callee, 1); len(ls) > 0 {
+				perPair = p.InstrPos(ls[0])
+			}
+		}
+	}
+	c.Check(perPair == "", "WorkingMemory.IndexVariables / the registry is not asked by snapshot text for every pair of node and variable", p.Pos(fn.Pos()), "no lookup in a registry keyed by snapshot text inside two nested loops, except behind a miss of the pointer-keyed lookup", "for every (node, variable) pair a registry is asked by snapshot text (lookup at "+perPair+"): the key is as long as the nesting is deep and is hashed on every lookup, so the build is of the third power of the nesting depth again, as it was with the text search (D43)")
 	c.Check(allPairs == "", "WorkingMemory.IndexVariables / the index is not built by a text search of every variable in every node", p.Pos(fn.Pos()), "no strings.Contains inside two nested loops over the registries", "every variable's snapshot is searched in every expression's and atom's (strings.Contains at "+allPairs+" inside two nested loops over the registries): `rule R { when a[a[a[…1…]]] == 1 then x = 1; }` with 1000 nested selectors (3 KB) takes 37 s to build, 500 take 4.5 s, 2000 five minutes; the variables below a node can be collected from the node's children instead, which is what the text containment stands for (SNAP-6)")
 }
 
